@@ -632,3 +632,248 @@ Section ChatOpenAI.
     - left; reflexivity.
   Qed.
 End ChatOpenAI.
+
+(** * api.Client under transport faults *)
+Definition nonterm (d : list line) : Prop := forallb (fun x => negb (line_terminal x)) d = true.
+
+Lemma client_cut_pre max status c : forall ls,
+  nonterm ls ->
+  let '(d, r) := client_stream_cut true max status ls c in
+  (exists e, r = CFail e /\ nonterm d) \/
+  (exists d', d = ls ++ d' /\ cut_tail true max status c = (d', r)).
+Proof.
+  unfold nonterm. induction ls as [|l ls IH]; intros H; cbn [client_stream_cut].
+  - destruct (cut_tail true max status c) as [d r]. right. exists d. split; reflexivity.
+  - cbn in H. apply andb_true_iff in H as [Hl H].
+    destruct (max <=? line_len l)%N; [left; eexists; split; reflexivity|].
+    destruct l as [n dn|n m|n]; cbn in Hl.
+    + destruct (400 <=? status)%Z; [left; eexists; split; reflexivity|].
+      specialize (IH H). destruct (client_stream_cut true max status ls c) as [d r].
+      destruct IH as [(e & -> & Hd)|(d' & -> & E)].
+      * left. exists e. split; [reflexivity|]. cbn. rewrite Hl, Hd. reflexivity.
+      * right. exists d'. split; [reflexivity|exact E].
+    + discriminate.
+    + left; eexists; split; reflexivity.
+Qed.
+
+Lemma nonterm_app a b : nonterm (a ++ b) <-> nonterm a /\ nonterm b.
+Proof. unfold nonterm. rewrite forallb_app, andb_true_iff. reflexivity. Qed.
+
+(** a strict prefix of a stream whose only terminal line is the last one contains no terminal line *)
+Lemma split_last {A} (ls : list A) x tail pre t :
+  ls ++ x :: tail = pre ++ [t] ->
+  (tail = [] /\ ls = pre /\ x = t) \/ (exists y, pre = ls ++ x :: y).
+Proof.
+  revert pre. induction ls as [|a ls IH]; intros pre E; cbn in E.
+  - destruct pre as [|p pre]; cbn in E.
+    + inversion E; subst. left. auto.
+    + inversion E; subst. right. exists pre. reflexivity.
+  - destruct pre as [|p pre]; cbn in E.
+    + inversion E as [[Ea El]]. destruct ls; discriminate.
+    + inversion E as [[Ea El]]. subst. destruct (IH pre El) as [(-> & -> & ->)|(y & ->)].
+      * left. auto.
+      * right. exists y. reflexivity.
+Qed.
+
+Lemma client_cut_terminal max status ls tail c :
+  one_terminal_last line_terminal (ls ++ tail) ->
+  match c with
+  | CutNone => tail = []
+  | CutBetween => True
+  | CutInside _ => tail <> []
+  | CutBeforeNewline l => exists tl, tail = l :: tl
+  end ->
+  let '(d, r) := client_stream_cut true max status ls c in
+  (r = COk /\ one_terminal_last line_terminal d) \/
+  (exists e, r = CFail e /\ nonterm d) \/
+  (exists e, r = CFail e /\ one_terminal_last line_terminal d /\
+             match c with CutBetween => tail = [] | CutBeforeNewline l => tail = [l] | _ => False end).
+Proof.
+  intros (pre & t & E & Ht & Hpre) Hc.
+  (* either everything was received (tail = []) or ls holds no terminal line *)
+  destruct tail as [|x tail].
+  - rewrite app_nil_r in E. subst ls.
+    pose proof (client_cut_pre max status c pre Hpre) as H1.
+    assert (G : forall d r, client_stream_cut true max status (pre ++ [t]) c = (d, r) ->
+              (r = COk /\ one_terminal_last line_terminal d) \/
+              (exists e, r = CFail e /\ nonterm d) \/
+              (exists e, r = CFail e /\ one_terminal_last line_terminal d /\
+                 match c with CutBetween => @nil line = [] | CutBeforeNewline l => [] = [l] | _ => False end)).
+    { clear H1. induction pre as [|p pre IH]; intros d r; cbn [app client_stream_cut].
+      - destruct (max <=? line_len t)%N; [intros [= <- <-]; right; left; eexists; split; reflexivity|].
+        destruct t as [n dn|n m|n]; cbn in Ht; try discriminate.
+        + destruct (400 <=? status)%Z; [intros [= <- <-]; right; left; eexists; split; reflexivity|].
+          destruct c; cbn [cut_tail]; try (destruct Hc; congruence).
+          * intros [= <- <-]. left. split; [reflexivity|]. apply one_terminal_last_single; exact Ht.
+          * intros [= <- <-]. right. right. eexists. split; [reflexivity|]. split; [|reflexivity].
+            apply one_terminal_last_single; exact Ht.
+        + intros [= <- <-]. right; left; eexists; split; reflexivity.
+      - unfold nonterm in Hpre. cbn in Hpre. apply andb_true_iff in Hpre as [Hp Hpre].
+        destruct (max <=? line_len p)%N; [intros [= <- <-]; right; left; eexists; split; reflexivity|].
+        destruct p as [n dn|n m|n]; cbn in Hp; try discriminate.
+        + destruct (400 <=? status)%Z; [intros [= <- <-]; right; left; eexists; split; reflexivity|].
+          destruct (client_stream_cut true max status (pre ++ [t]) c) as [d' r'] eqn:E'.
+          intros [= <- <-]. destruct (IH Hpre d' r' eq_refl) as [[-> Hd]|[(e & -> & Hd)|(e & -> & Hd & Hcc)]].
+          * left. split; [reflexivity|]. apply one_terminal_last_cons; auto. now apply negb_true_iff in Hp.
+          * right; left. exists e. split; [reflexivity|]. unfold nonterm in *. cbn. rewrite Hp, Hd. reflexivity.
+          * right; right. exists e. split; [reflexivity|]. split; [|exact Hcc].
+            apply one_terminal_last_cons; auto. now apply negb_true_iff in Hp.
+        + intros [= <- <-]. right; left; eexists; split; reflexivity. }
+    destruct (client_stream_cut true max status (pre ++ [t]) c) as [d r]. apply (G d r eq_refl).
+  - destruct (split_last ls x tail pre t E) as [(-> & -> & ->)|(y & Ey)].
+    + (* the cut is before the newline of / inside the final line *)
+      pose proof (client_cut_pre max status c pre Hpre) as H1.
+      destruct (client_stream_cut true max status pre c) as [d r].
+      destruct H1 as [H1|(d' & -> & Et)]; [right; left; exact H1|].
+      destruct c as [| |m|l]; cbn [cut_tail] in Et.
+      * discriminate.
+      * inversion Et; subst. right; left. eexists. split; [reflexivity|]. rewrite app_nil_r. exact Hpre.
+      * destruct (max <=? m)%N; inversion Et; subst; right; left; eexists; (split; [reflexivity|]); rewrite app_nil_r; exact Hpre.
+      * destruct Hc as (tl & [= <- <-]).
+        destruct (max <=? line_len t)%N.
+        { inversion Et; subst. right; left. eexists. split; [reflexivity|]. rewrite app_nil_r. exact Hpre. }
+        destruct t as [n dn|n m|n]; cbn in Ht; try discriminate.
+        -- destruct (400 <=? status)%Z; inversion Et; subst.
+           ++ right; left. eexists. split; [reflexivity|]. rewrite app_nil_r. exact Hpre.
+           ++ right; right. eexists. split; [reflexivity|]. split; [|reflexivity].
+              eexists pre, _. repeat split; auto.
+        -- inversion Et; subst. right; left. eexists. split; [reflexivity|]. rewrite app_nil_r. exact Hpre.
+    + (* the cut is earlier: everything received, and the line being cut, is non-terminal *)
+      subst pre. apply nonterm_app in Hpre as [Hls Hxy].
+      pose proof (client_cut_pre max status c ls Hls) as H1.
+      destruct (client_stream_cut true max status ls c) as [d r].
+      destruct H1 as [H1|(d' & -> & Et)]; [right; left; exact H1|].
+      right; left.
+      destruct c as [| |m|l]; cbn [cut_tail] in Et.
+      * discriminate.
+      * inversion Et; subst. eexists. split; [reflexivity|]. rewrite app_nil_r. exact Hls.
+      * destruct (max <=? m)%N; inversion Et; subst; eexists; (split; [reflexivity|]); rewrite app_nil_r; exact Hls.
+      * destruct Hc as (tl & [= <- <-]). unfold nonterm in Hxy. cbn in Hxy. apply andb_true_iff in Hxy as [Hx _].
+        destruct (max <=? line_len x)%N.
+        { inversion Et; subst. eexists. split; [reflexivity|]. rewrite app_nil_r. exact Hls. }
+        destruct x as [n dn|n m|n]; cbn in Hx; try discriminate.
+        -- destruct (400 <=? status)%Z; inversion Et; subst.
+           ++ eexists. split; [reflexivity|]. rewrite app_nil_r. exact Hls.
+           ++ eexists. split; [reflexivity|]. apply nonterm_app. split; [exact Hls|]. unfold nonterm. cbn. rewrite Hx. reflexivity.
+        -- inversion Et; subst. eexists. split; [reflexivity|]. rewrite app_nil_r. exact Hls.
+Qed.
+
+(** * tool-call indices: the running index of ChatHandler makes merge-by-index the identity *)
+Lemma number_app : forall a b i, number i (a ++ b) = number i a ++ number (i + length a) b.
+Proof.
+  induction a as [|[n x] a IH]; intros b i; cbn [app number length].
+  - rewrite Nat.add_0_r. reflexivity.
+  - rewrite IH. replace (S i + length a) with (i + S (length a)) by lia. reflexivity.
+Qed.
+
+Lemma strip_app a b : strip (a ++ b) = strip a ++ strip b.
+Proof. unfold strip. apply map_app. Qed.
+
+Lemma rec_calls_app a b : rec_calls (a ++ b) = rec_calls a ++ rec_calls b.
+Proof. unfold rec_calls. apply flat_map_app. Qed.
+
+Lemma merge_call_fresh c : forall acc,
+  Forall (fun e => fst e <> cidx c) acc -> merge_call acc c = acc ++ [(cidx c, (cname c, cargs c))].
+Proof.
+  induction acc as [|[i [n a]] acc IH]; intros H; cbn [merge_call app]; [reflexivity|].
+  inversion H as [|? ? Hi Hrest]; subst. cbn in Hi.
+  destruct (Nat.eqb i (cidx c)) eqn:E; [apply Nat.eqb_eq in E; contradiction|].
+  rewrite IH by exact Hrest. reflexivity.
+Qed.
+
+Lemma fold_merge_number : forall l i acc,
+  Forall (fun e => fst e < i) acc ->
+  fold_left merge_call (number i l) acc = acc ++ map (fun c => (cidx c, (cname c, cargs c))) (number i l).
+Proof.
+  induction l as [|[n a] l IH]; intros i acc H; cbn [number fold_left map].
+  - rewrite app_nil_r. reflexivity.
+  - rewrite merge_call_fresh.
+    + cbn [cidx cname cargs]. rewrite IH.
+      * rewrite <- app_assoc. reflexivity.
+      * apply Forall_app. split.
+        -- eapply Forall_impl; [|exact H]. cbn. intros; lia.
+        -- constructor; [cbn; lia|constructor].
+    + cbn [cidx]. eapply Forall_impl; [|exact H]. cbn. intros; lia.
+Qed.
+
+Lemma reassemble_number l i : reassemble (number i l) = l.
+Proof.
+  unfold reassemble. rewrite fold_merge_number by constructor. cbn [app]. rewrite map_map. cbn.
+  generalize i. induction l as [|[n a] l IH]; intros j; cbn; [reflexivity|]. rewrite IH. reflexivity.
+Qed.
+
+Lemma sse_calls_app a b : sse_calls (a ++ b) = sse_calls a ++ sse_calls b.
+Proof. unfold sse_calls. apply flat_map_app. Qed.
+
+Lemma sse_calls_v1chat u : forall recs s, sse_calls (v1chat_stream u s recs) = rec_calls recs.
+Proof.
+  induction recs as [|r recs IH]; intros s; cbn [v1chat_stream]; [reflexivity|].
+  destruct r as [c cl d rs cnt x|m].
+  - change (sse_calls (?a :: ?b)) with (match a with SChunk _ cl0 _ => cl0 | _ => [] end ++ sse_calls b).
+    cbn beta iota. rewrite sse_calls_app, IH.
+    assert (sse_calls (if d then (if u then [SUsage (pc cnt) (ec cnt)] else []) ++ [SMarker] else []) = []) as ->
+      by (destruct d, u; reflexivity).
+    reflexivity.
+  - change (sse_calls (SError m :: ?b)) with (sse_calls b). rewrite IH. reflexivity.
+Qed.
+
+Lemma rec_calls_single a cl d r n x : rec_calls [Msg a cl d r n x] = cl.
+Proof. cbn. apply app_nil_r. Qed.
+
+Section IndexProofs.
+  Variable P : str -> option (list (str * str)).
+
+  (** the calls of a native chat stream are numbered consecutively from the handler's toolCallIndex *)
+  Lemma chat_items_numbered cfg f : forall cs sb idx,
+    rec_calls (chat_items P cfg (sb, idx) cs f) = number idx (strip (rec_calls (chat_items P cfg (sb, idx) cs f))).
+  Proof.
+    induction cs as [|c cs IH]; intros sb idx; cbn [chat_items].
+    - destruct f as [content r cnt|m|]; [|reflexivity|reflexivity].
+      unfold chat_step. destruct (negb (c_stream cfg) || negb (c_tools cfg)); [reflexivity|].
+      destruct (P (sb ++ content)) as [calls|]; cbn [snd]; [|reflexivity].
+      cbn. rewrite !app_nil_r, strip_number. reflexivity.
+    - destruct (chat_step P cfg (sb, idx) c false [] zeroc) as [[sb' idx'] out] eqn:E.
+      rewrite rec_calls_app, strip_app. unfold chat_step in E.
+      destruct (negb (c_stream cfg) || negb (c_tools cfg)).
+      + inversion E; subst. rewrite rec_calls_single. cbn [strip map app]. apply IH.
+      + destruct (P (sb ++ c)) as [calls|]; inversion E; subst.
+        * rewrite rec_calls_single, strip_number, number_app. f_equal. apply IH.
+        * cbn [rec_calls flat_map strip map app]. apply IH.
+  Qed.
+
+  Lemma openai_tool_index_stream cfg u o :
+    reassemble (sse_calls (v1chat_stream u false (chat_stream P cfg o))) = strip (rec_calls (chat_stream P cfg o)).
+  Proof.
+    rewrite sse_calls_v1chat. unfold chat_stream.
+    etransitivity; [apply f_equal, chat_items_numbered|apply reassemble_number].
+  Qed.
+
+  Lemma rec_calls_scan r cnt : forall cs sb idx,
+    strip (rec_calls (chat_items P (mkCc true true) (sb, idx) cs (FDone [] r cnt))) = fst (fst (scan P sb cs)).
+  Proof.
+    induction cs as [|c cs IH]; intros sb idx; cbn [chat_items scan].
+    - unfold chat_step. cbn [c_stream c_tools negb orb]. rewrite app_nil_r.
+      destruct (P sb) as [calls|]; cbn; [rewrite app_nil_r, strip_number|]; reflexivity.
+    - unfold chat_step at 1. cbn [c_stream c_tools negb orb].
+      destruct (P (sb ++ c)) as [calls|]; cbn [app].
+      + change (rec_calls (?a :: ?b)) with (match a with Msg _ cl _ _ _ _ => cl | ErrRec _ => [] end ++ rec_calls b).
+        cbn beta iota. rewrite strip_app, strip_number, IH.
+        destruct (scan P [] cs) as [[n s] h]. reflexivity.
+      + apply IH.
+  Qed.
+
+  Lemma openai_tool_index_consistent : parser_nonempty P -> parser_additive P -> forall u o1 o2 r cnt,
+    text_of o1 = text_of o2 -> ending o1 = FDone [] r cnt -> ending o2 = ending o1 ->
+    reassemble (sse_calls (v1chat_stream u false (chat_stream P (mkCc true true) o1))) =
+    v1_calls (v1chat_nonstream (chat_nonstream P true o2)).
+  Proof.
+    intros Hne Hadd u o1 o2 r cnt Ht He1 He2. rewrite openai_tool_index_stream.
+    unfold chat_stream at 1. rewrite He1, rec_calls_scan.
+    unfold chat_nonstream. rewrite chat_ns_fold, He2, He1, <- Ht. unfold text_of. rewrite He1. cbn [fin_content]. rewrite app_nil_r.
+    pose proof (scan_spec P Hadd (chunks o1) []) as Hsp.
+    destruct (scan P [] (chunks o1)) as [[n s] hit]. cbn [app fst] in *.
+    cbn [chat_ns_final]. destruct hit.
+    - rewrite Hsp. cbn. rewrite strip_zero. reflexivity.
+    - destruct Hsp as (-> & -> & _). reflexivity.
+  Qed.
+End IndexProofs.
